@@ -83,10 +83,18 @@ pub fn generate(
                     }
                     CustomType::Yes(_) => {
                         // Once signed bitenum or bitfield-base-data-types are a thing, we'll need to pay special attention to sign extension here
+                        //
+                        // The raw value is pinned to the type that the getter passes to new_with_raw_value().
+                        // Otherwise nothing would tie the width of the custom type to the width of a write-only
+                        // field, and a wider raw value would be written over the neighbouring bits
                         if field_definition.use_regular_int {
-                            quote! { field_value.raw_value() }
+                            let primitive_type = &field_definition.primitive_type;
+                            quote! { { let raw_value: #primitive_type = field_value.raw_value(); raw_value } }
                         } else {
-                            quote! { field_value.raw_value().value() }
+                            let raw_type =
+                                TokenStream2::from_str(format!("arbitrary_int::u{}", total_number_bits).as_str())
+                                    .unwrap();
+                            quote! { { let raw_value: #raw_type = field_value.raw_value(); raw_value.value() } }
                         }
                     }
                 };
